@@ -155,7 +155,7 @@ func init() {
 			{ID: "C14.R3", Doc: "every container that can be stored is registered (Ego non-nil on every path of its constructor), so getVal-based views and TypeOf agree on containers (= C19.R2)", Run: func(c *Ctx) {
 				c.R.Floor("C14.R3", runAs(c, "C14.R3", c19R2, func(o *Obligation) bool {
 					return strings.HasPrefix(o.Construct, "alloc/") || strings.HasPrefix(o.Construct, "ptr-store/")
-				}), 6)
+				}), 3)
 			}},
 			{ID: "C14.R2", Doc: "kind test equals the kind demanded by the signature (or All* name table); AllX returns false exactly on a non-K element and true after the loop", Run: func(c *Ctx) {}},
 		},
